@@ -415,7 +415,8 @@ class FnAnalysis:
         k = rv["k"]
         if k == "use":
             return self.operand(st, rv["op"])
-        if k == "ref":
+        if k in ("ref", "rawptr"):
+            # `&raw const *p` (slice patterns take the length through it) designates the same place as `&*p`
             lv = self.resolve_place(st, rv["place"])
             root, path = lv
             if root[0] == "M" and not path:
@@ -1347,6 +1348,14 @@ class Program:
             return m
         # 2. in-crate callee: inline a closed summary when there is one
         lf = self.local_fn(callee)
+        if lf is not None and lf.get("kind") == "Closure" and dq in ("ops::FnOnce::call_once", "ops::Fn::call", "ops::FnMut::call_mut") \
+                and len(args) == 2 and args[1].op == "agg" and args[1].args[0] == "tuple":
+            # the closure body takes its arguments untupled
+            n_ = len(args[1].args[4])
+            args = [args[0]] + list(args[1].args[4])
+            arg_lvs = [arg_lvs[0]] + [None] * n_
+            arg_tys = [arg_tys[0]] + [""] * n_
+            mut_idx = [i for i in mut_idx if i == 0]
         if lf is not None and not mut_idx:
             from .vocab import KEEP_CALL
             sub = self.analysis(lf) if lf["qual"] not in KEEP_CALL else None
@@ -1443,6 +1452,8 @@ class Program:
             for n, v in zip(names, vals):
                 if v.lstrip("-").isdigit():
                     out[n] = int(v)
+                elif not n.startswith("'") and n != v:
+                    out.setdefault("#types", {})[n] = norm(v)     # type parameter -> actual type (for generic-argument lists of calls)
         return out
 
     def subst(self, an, st, t, args, gmap=None):
@@ -1478,7 +1489,22 @@ class Program:
             elif op == "agg":
                 r = T.agg(a[0], a[1], a[2], a[3], [go(f) for f in a[4]])
             elif op == "call":
-                r = T.call(a[0], a[1], [self._stabilise(an, st, go(y)) for y in a[2]])
+                cargs = [self._stabilise(an, st, go(y)) for y in a[2]]
+                r = None
+                if gmap and gmap.get("#types") and a[1]:
+                    import re as _re
+                    tm = gmap["#types"]
+                    rx = _re.compile(r"\b(%s)\b" % "|".join(_re.escape(k) for k in tm))
+                    a = (a[0], tuple(rx.sub(lambda m: tm[m.group(1)], g) if isinstance(g, str) else g for g in a[1]), a[2])
+                # a function-valued parameter has become known: apply it now
+                if a[0] in ("ops::FnOnce::call_once", "ops::Fn::call", "ops::FnMut::call_mut") and len(cargs) == 2:
+                    f = cargs[0].args[0] if cargs[0].op == "refval" else cargs[0]
+                    if f.op in ("agg", "fnptr", "zst") and cargs[1].op == "agg" and cargs[1].args[0] == "tuple":
+                        r = self.apply_fn(an, st, f, list(cargs[1].args[4]))
+                elif (a[0].startswith("option::Option::") or a[0].startswith("result::Result::")) and any(x.op in ("agg", "fnptr") for x in cargs[1:]):
+                    r = self._combinator(an, st, a[0], cargs)
+                if r is None:
+                    r = T.call(a[0], a[1], cargs)
             elif op == "discr":
                 r = T.discr(go(a[0]))
             elif op == "len":
@@ -1542,6 +1568,22 @@ class Program:
         comb = self._combinator(an, st, name, args)
         if comb is not None:
             return comb
+        if name in ("bool::then_some", "bool::then") and len(args) == 2:
+            v = args[1] if name.endswith("then_some") else self.apply_fn(an, st, args[1], [])
+            if v is not None:
+                return T.ite(args[0], T.agg("adt", "option::Option", 1, "Some", [v]), T.agg("adt", "option::Option", 0, "None", []))
+        if name in ("ops::FnOnce::call_once", "ops::Fn::call", "ops::FnMut::call_mut") and len(args) == 2:
+            # a direct call of a closure value / function item: apply it (the argument is the tuple of actual arguments)
+            f = args[0]
+            if f.op == "ref":
+                f = an.read(st, (f.args[0], f.args[1]))
+            elif f.op == "refval":
+                f = f.args[0]
+            tup = args[1]
+            if tup.op == "agg" and tup.args[0] == "tuple":
+                v = self.apply_fn(an, st, f, list(tup.args[4]))
+                if v is not None:
+                    return v
         if name == "mem::size_of" and generics:
             sz = {"u8": 1, "i8": 1, "u16": 2, "i16": 2, "u32": 4, "i32": 4, "u64": 8, "i64": 8, "u128": 16, "i128": 16}.get(generics[0])
             if sz is not None:
@@ -1628,6 +1670,19 @@ class Program:
             d = ap(args[1], [] if opt else [pb])
             if d is not None:
                 r = ((good, pg), (bad, d))
+        elif m == "filter" and opt and len(args) == 2:
+            c = ap(args[1], [T.refval(pg)])
+            if c is not None:
+                r = ((good, T.ite(c, SOME(pg), NONE)), (bad, NONE))
+        elif m == "flatten" and opt and len(args) == 1:
+            r = ((good, pg), (bad, NONE))
+        elif m == "zip" and opt and len(args) == 2 and args[1].op not in ("ref", "refval"):
+            Y = args[1]
+            r = ((good, T.mterm(Y, (("Some", SOME(T.agg("tuple", None, 0, None, [pg, T.payload(Y, "Some")]))), ("None", NONE)))), (bad, NONE))
+        elif m == "and" and len(args) == 2:
+            r = ((good, args[1]), (bad, keep_bad))
+        elif m == "or" and len(args) == 2:
+            r = ((good, wrap_good(pg)), (bad, args[1]))
         elif m == "unwrap_or_default" and len(args) == 1:
             return None
         if r is None:
@@ -1687,6 +1742,8 @@ class Program:
             inst = self.subst(an, st, tree, args)
             if inst is not None:
                 return inst
+        if self.known_name(lf) and not any("&mut" in x for x in (lf.get("sig") or {}).get("inputs", [])):
+            return T.call(lf["qual"], (), [self._stabilise(an, st, a) for a in args])    # a function the rules know by name
         return None
 
     def convert_err(self, an, st, callee, e):
